@@ -20,9 +20,12 @@ GRIDS = {
 }
 
 
+UF = {'nm': 1.0, 'um': 1e-3, 'm': 1e-9, 'angstrom': 10.0}
+
+
 def spec(grid, values, unit='nm'):
     from lentil.radiometry import Spectrum
-    f = {'nm': 1.0, 'um': 1e-3}[unit]
+    f = UF[unit]
     return Spectrum(np.array(grid, dtype=float) * f, np.array(values, dtype=float), waveunit=unit)
 
 
@@ -110,7 +113,8 @@ CENTRES = {
 
 def chk_bin(case, acc, seed):
     cname, ends, rule, pp, unit = case['centres'], case['ends'], case['rule'], case['preserve'], case['unit']
-    f = {'nm': 1.0, 'um': 1e-3}[unit]
+    sunit = case.get('sunit', unit)             # the unit the spectrum is held in when bin() is called
+    f = UF[unit]
     c = np.array(CENTRES[cname], dtype=float)
     uniform_c = cname.startswith('c') and not cname.startswith('cn')
     # data grid: uniform, wider than the bins (so fill values never enter)
@@ -122,7 +126,7 @@ def chk_bin(case, acc, seed):
     a0, b0 = 2.0, 0.004
     lin_vals = [a0 + b0 * x for x in g]
     try:
-        bins = np.asarray(spec(g, lin_vals, unit).bin(c * f, **kw))
+        bins = np.asarray(spec(g, lin_vals, sunit).bin(c * f, **kw))
     except Exception as e:
         acc.violation(f'bin:raises:{type(e).__name__}', sub, repr(e))
         acc.case(case, outcome='raise')
@@ -151,13 +155,13 @@ def chk_bin(case, acc, seed):
         if not pp:
             for k in range(n):
                 e = [0.0] * n; e[k] = 1.0
-                bk = np.asarray(spec(g, e, unit).bin(c * f, **kw))
+                bk = np.asarray(spec(g, e, sunit).bin(c * f, **kw))
                 if np.any(bk < 0):
                     acc.violation(f'bin:{rule}:negative', dict(sub, impulse=g[k]), f'negative bin {bk.min()} for a non-negative spectrum')
                     break
         else:
             pos = rm.generic_real((n,), seed, tag=9, lo=0.1, hi=2.0)
-            sp = spec(g, pos, unit)
+            sp = spec(g, pos, sunit)
             bk = np.asarray(sp.bin(c * f, **kw))
             if np.any(bk < 0) or not np.all(np.isfinite(bk)):
                 acc.violation(f'bin:{rule}:negative', sub, 'negative / non-finite bin for a positive spectrum')
@@ -167,7 +171,38 @@ def chk_bin(case, acc, seed):
                 acc.violation(f'bin:{rule}:{ends}:preserve-power:{unit}', dict(sub, payload='kinked'),
                               f'sum(bins) = {np.sum(bk)} != integral over the centre span with the same rule {want}')
     acc.cls(f'bin:{rule}:{unit}')
+    if sunit != unit:
+        acc.cls('bin:foreign-unit')
     acc.case(case, nontrivial=applicable, outcome=f'{rule}-{ends}-{pp}-{unit}')
+
+
+def chk_crop(case, acc, seed):
+    """crop keeps exactly the samples inside the closed range, whatever unit (and so magnitude) the wavelengths have"""
+    unit, gname = case['unit'], case['grid']
+    g = np.array([400 + 5 * k for k in range(9)], float) if gname == 'coarse' else np.array([500 + 0.002 * k for k in range(9)], float)
+    w = g * UF[unit]
+    vals = 1.0 + np.arange(len(w))
+    pts = sorted(set(w.tolist()) | set(((w[:-1] + w[1:]) / 2).tolist()) | {w[0] - (w[1] - w[0]) / 2, w[-1] + (w[1] - w[0]) / 2})
+    from lentil.radiometry import Spectrum
+    for i, lo in enumerate(pts):
+        for hi in pts[i:]:
+            exp = [(float(a), float(b)) for a, b in zip(w, vals) if lo <= a <= hi]
+            if not exp:
+                continue
+            s = Spectrum(w.copy(), vals.copy(), waveunit=unit)
+            sub = dict(case, lo=lo, hi=hi)
+            try:
+                s.crop(lo, hi)
+            except Exception as e:
+                acc.violation(f'crop:raises:{type(e).__name__}', sub, repr(e))
+                return
+            got = list(zip(np.asarray(s.wave, float).tolist(), np.asarray(s.value, float).tolist()))
+            if got != exp:
+                acc.violation(f'crop:closed-range:{unit}', sub, f'crop({lo!r}, {hi!r}) kept {[a for a, _ in got]}, the samples inside the closed range are {[a for a, _ in exp]}')
+                return
+            acc.transitions += 1
+    acc.cls('crop-units')
+    acc.case(case, outcome='crop')
 
 
 def chk_bin_errors(case, acc, seed):
@@ -190,10 +225,11 @@ STARTS = {
     'nonuniform': ([400, 410, 450, 520, 700], [1.0, 2.0, 0.5, 1.5, 0.25]),
     'all-zero': ([400, 500, 600], [0, 0, 0]),
     'two': ([480, 620], [1.0, 3.0]),
+    'neg-dominant': ([400, 450, 500, 550, 600, 650, 700], [0, 0.3, -5.0, 1.0, 0.2, 1e-5, 0]),
 }
 EVENTS = [
     ('crop', 450, 650), ('crop', 400, 700), ('crop', 425, 575), ('crop', 300, 900), ('crop', 500, 500),
-    ('trim', 1e-4), ('trim', 0.5),
+    ('trim', 1e-4), ('trim', 0.5), ('trim', 0.1),
     ('pad', (300, 800), 'min', 'constant', None), ('pad', (350, 700), 'min', 'edge', None), ('pad', (390, 710), 20, 'constant', (1, 2)),
     ('pad', (-5, 800), 'min', 'constant', None),
     ('append', 'legal'), ('append', 'overlap'), ('append', 'longer'), ('append', 'notspectrum'), ('append', 'interleaved'), ('append', 'legal-copy'),
@@ -311,6 +347,9 @@ def step_check(s, ev, sub, acc):
                       f'after {ev} ({"raised " + repr(exc) if exc is not None else "returned"}): {bad}')
         return False
     w1, v1 = np.asarray(s.wave), np.asarray(s.value)
+    if exc is not None and kind == 'trim' and len(v0) and np.max(v0) > 0 and ev[1] < 1:
+        acc.violation(f'resize:trim:raises:{type(exc).__name__}', sub, f'trim({ev[1]}) of a spectrum whose maximum {np.max(v0)} is positive raised {exc!r}')
+        return False
     if exc is not None:
         acc.cls('refused-events')
         # a refused operation keeps the spectrum well-formed (checked above) and never alters a sample it retains; the
@@ -344,7 +383,7 @@ def step_check(s, ev, sub, acc):
             acc.violation('resize:crop:wrong-samples', sub, f'crop({ev[1]},{ev[2]}) kept {w1.tolist()}, expected {[float(a) for a, _ in exp]}')
             return False
     elif kind == 'trim':
-        if np.any(v0):
+        if np.max(v0) > 0:
             idx = np.where(v0 / np.max(v0) > ev[1])[0]
             exp_w = w0[idx[0]: idx[-1] + 1]
         else:
@@ -417,7 +456,7 @@ def t_bfs(arg, acc):
     acc.cls('resize-states', len(seen))
 
 
-DISPATCH = {'integrate': chk_integrate, 'bin': chk_bin, 'binerr': chk_bin_errors, 'hist': lambda c, a, s: chk_hist(c, a, s)}
+DISPATCH = {'crop': chk_crop, 'integrate': chk_integrate, 'bin': chk_bin, 'binerr': chk_bin_errors, 'hist': lambda c, a, s: chk_hist(c, a, s)}
 
 
 def t_static(arg, acc):
@@ -434,6 +473,11 @@ def t_static(arg, acc):
                     for pp in (False, True):
                         acc.transitions += 1
                         chk_bin({'kind': 'bin', 'centres': cname, 'ends': ends, 'rule': rule, 'preserve': pp, 'unit': arg['unit']}, acc, seed)
+                        other = {'nm': 'um', 'um': 'nm'}[arg['unit']]
+                        chk_bin({'kind': 'bin', 'centres': cname, 'ends': ends, 'rule': rule, 'preserve': pp, 'unit': arg['unit'], 'sunit': other}, acc, seed)
+        for unit in UF:
+            for gname in ('coarse', 'fine'):
+                chk_crop({'kind': 'crop', 'unit': unit, 'grid': gname}, acc, seed)
 
 
 def run(tier, seed, acc, procs=None):
@@ -454,7 +498,7 @@ def run(tier, seed, acc, procs=None):
         'bounds': {'resize_depth': depth, 'events': len(EVENTS), 'starts': list(STARTS)},
         'assumptions': ["Simpson's rule is only judged for uniformly spaced centres / odd sample counts, as the statement says",
                         'exact piecewise-linear integrals in Fractions'],
-        'require': {'integrate': 50, 'bin:trapz:nm': 20, 'bin:simps:um': 20, 'refused-events': 50, 'resize-states': 50},
+        'require': {'integrate': 50, 'bin:trapz:nm': 20, 'bin:simps:um': 20, 'refused-events': 50, 'resize-states': 50, 'crop-units': 8, 'bin:foreign-unit': 40},
     }
 
 
